@@ -271,6 +271,27 @@ def check_scenario_B(fu, scn, stats, viol):
                                                       after['dest'] and after['dest']['bytes'][:30]),
                          {'layer': 'B', 'scn': scn, 'crash_before': k})
                 shutil.rmtree(dk, ignore_errors=True)
+        # the sync itself is refused (a file system that "cannot sync": EINVAL, ENOSYS, ENOTSUP..., or EIO): the new
+        # content was not made durable, so it must not be published over the old one
+        for k, ev in enumerate(log):
+            if ev[0] != 'fsync':
+                continue
+            for en in (_errno.EIO, _errno.EINVAL, _errno.ENOSYS, _errno.ENOTSUP, _errno.EROFS):
+                ds = os.path.join(base, 's%d_%d' % (k, en))
+                os.mkdir(ds)
+                rs = F.run_in_process(fu, scn, ds, faults={k: en})
+                stats.evaluations += 1
+                stats.monitor_evals += 1
+                stats.count('fsync-refused:' + _errno.errorcode[en])
+                pub_after = [e for e in rs['log'][k + 1:] if e[0] in ('rename', 'link') and e[-1] == 'done']
+                a = rs['after']['dest']
+                if pub_after or (a is not None and a['bytes'] == want and
+                                 (rs['before']['dest'] is None or rs['before']['dest']['bytes'] != want)):
+                    viol('published-after-failed-fsync:' + _errno.errorcode[en],
+                         'fsync of the part file failed with %s, yet the new content was published (save %s)'
+                         % (_errno.errorcode[en], 'raised %r' % rs['exc'] if rs['exc'] else 'returned normally'),
+                         {'layer': 'B', 'scn': scn, 'crash_before': None})
+                shutil.rmtree(ds, ignore_errors=True)
         touched = False
         for k in range(n + 1):
             dk = os.path.join(base, 'k%d' % k)
@@ -340,7 +361,8 @@ def check_scenario_A(scn, stats, viol):
                 os.mkdir(dk)
                 dest_k, part_k = F.prepare_dir(scn, dk)
                 before_k = F.snapshot(dk, dest_k, part_k)
-                inj = '%s:error=%s:when=1' % (sysname, en)
+                # EXDEV / EBUSY do not go away on a retry: refuse every such call (a fallback that copies shows itself)
+                inj = '%s:error=%s' % (sysname, en) if en in ('EXDEV', 'EBUSY') else '%s:error=%s:when=1' % (sysname, en)
                 rc2, ev2, _ = F.strace_run(scn, dk, repo, inject=inj)
                 stats.evaluations += 1
                 stats.monitor_evals += 1
@@ -395,7 +417,7 @@ def run(ctx):
         st.violation(sig, what, wit)
     have_strace = F.strace_available()
     st.counters['strace_available'] = int(have_strace)
-    nA = {'quick': 1, 'thorough': 20}[ctx.tier]
+    nA = {'quick': 2, 'thorough': 20}[ctx.tier]
     for i, scn in enumerate(mine):
         if ctx.out_of_time():
             st.notes.append('stopped after %d/%d scenarios (time budget)' % (i, len(mine)))
